@@ -48,7 +48,7 @@ def pattOf (w : Nat) (sgn : Bool) (n : Int) : Nat :=
 theorem sext_bounds (w : Nat) (hw : w = 8 ∨ w = 16 ∨ w = 32 ∨ w = 64) (n : Int) :
     -(2 : Int) ^ 63 ≤ sext w n ∧ sext w n < (2 : Int) ^ 63 ∧ (sext w n = 0 ↔ zext w n = 0) := by
   unfold sext zext
-  rcases hw with h | h | h | h <;> subst h <;> simp only [Nat.reducePow, Int.reducePow, Nat.reduceSub] <;> omega
+  rcases hw with h | h | h | h <;> subst h <;> simp only [Int.reducePow, Nat.reduceSub] <;> omega
 
 theorem zext_bounds (w : Nat) (hw : w = 8 ∨ w = 16 ∨ w = 32 ∨ w = 64) (n : Int) :
     0 ≤ zext w n ∧ zext w n < (2 : Int) ^ 64 := by
@@ -208,7 +208,7 @@ theorem convInt_inWidth (m : IMod) (cv : IConv) (n : Int) (h : intInWidth m cv n
   generalize m.width = w at *
   generalize cv.signed = sg at *
   rcases hw with hh | hh | hh | hh <;> subst hh <;> cases sg <;>
-    simp only [inInt64, Nat.reducePow, Int.reducePow, Nat.reduceSub, Nat.reduceEqDiff, if_false, if_true, Bool.false_eq_true,
+    simp only [inInt64, Int.reducePow, Nat.reduceSub, Nat.reduceEqDiff, if_false, if_true, Bool.false_eq_true,
       Bool.and_eq_true, decide_eq_true_eq] at h ⊢ <;> omega
 
 /-- evaluation rule: under a 64-bit signed specification an `int64_t` is printed as it is -/
